@@ -706,8 +706,11 @@ def write_replay(check, prop, population, i, trace, violation_json, digest,
         'violation': violation_json, 'digest': digest,
         'minimised': minimised, 'note': note, 'trace': trace,
     }
-    if os.environ.get('VERIF_SUBBATCH'):
-        body['hashseed'] = os.environ['VERIF_SUBBATCH']
+    sb = os.environ.get('VERIF_SUBBATCH') or ''
+    if sb.startswith('hashseed='):
+        body['hashseed'] = sb.split('=', 1)[1]
+    elif sb.startswith('pyopt='):
+        body['pyopt'] = 1
     key = hashlib.sha1(json.dumps([prop, violation_json.get('class'),
                                    trace], sort_keys=True).encode()
                        ).hexdigest()[:12]
